@@ -29,14 +29,18 @@ func vhSmallState(k Keeper, ctx sdk.Context, n int, weight uint64) {
 func VH_C07_lock(h *vrt.H) {
 	ka, kb := vhKeeperNamed(h, "lockingA"), vhKeeperNamed(h, "lockingB")
 	ctx := h.Ctx()
-	known := h.Choose("knownValidators", 1, 2) // validators 0..known-1 exist; requests may name unknown ones
+	maxKnown, maxReq := 2, 3
+	if h.Thorough() {
+		maxKnown, maxReq = 3, 4
+	}
+	known := h.Choose("knownValidators", 1, maxKnown) // validators 0..known-1 exist; requests may name unknown ones
 	vhSmallState(ka, ctx, known, 0)
 	vhSmallState(kb, ctx, known, 0)
-	nReq := h.Choose("nRequests", 1, 3)
+	nReq := h.Choose("nRequests", 1, maxReq)
 	var reqs []*goattypes.LockRequest
 	for i := 0; i < nReq; i++ {
 		reqs = append(reqs, &goattypes.LockRequest{
-			Validator: vhEthAddr(vhAddr(h.Choose(h.Name("target", i), 0, 2))),
+			Validator: vhEthAddr(vhAddr(h.Choose(h.Name("target", i), 0, maxKnown))),
 			Amount:    h.Big(h.Name("amount", i), "0", vhBig),
 		})
 	}
